@@ -13,7 +13,7 @@ pub fn def() -> PropDef {
         nontrivial,
         functional: true,
         post: super::no_post,
-        rule: "expression trees over the complete operator set (?:, ||, &&, the seven relations, + - * / %, prefix ! and -, select, index, global and receiver calls) x 2 leaf kinds: all trees with <= 2 operators (quick) / <= 3 (thorough), every && / || chain length 1..64, unparenthesised chains of length 2..10 of every left-associative operator (one operator throughout and mixed within a level), conditional ladders to 6 rungs, macro calls on macro results, every prefix run 1..6, random trees to depth 7; each rendered fully parenthesised and minimally parenthesised under the precedence table, compiled by the real parser; the predicate compares the parsed AST with the tree that was rendered, modulo re-association of same-operator logical chains; plus macro calls whose receiver and arguments must occur intact in the expansion, and the source texts of the other generators (model parser vs real parser); non-trivial = at least one operator; distinct = distinct text",
+        rule: "expression trees over the complete operator set (?:, ||, &&, the seven relations, + - * / %, prefix ! and -, select, index, global and receiver calls) x 2 leaf kinds: all trees with <= 2 operators (quick) / <= 3 (thorough), every && / || chain length 1..64, unparenthesised chains of length 2..10 of every left-associative operator (one operator throughout and mixed within a level), conditional ladders to 6 rungs, explicit nesting 32 / 40 / 48 levels deep (groups, calls, indexes, conditionals, prefix operators), macro calls on macro results, every prefix run 1..6, random trees to depth 7; each rendered fully parenthesised and minimally parenthesised under the precedence table, compiled by the real parser; the predicate compares the parsed AST with the tree that was rendered, modulo re-association of same-operator logical chains; plus macro calls whose receiver and arguments must occur intact in the expansion, and the source texts of the other generators (model parser vs real parser); non-trivial = at least one operator; distinct = distinct text",
         exhaustive_note: "trees with <= 2 operators, chain lengths <= 64 and prefix runs <= 6 are enumerated completely in the quick tier",
     }
 }
@@ -313,6 +313,38 @@ pub fn generate(tier: Tier, rng: &mut Rng) -> Vec<Case> {
             let flat = format!("(ast (call {}{}))", hex(opname(op).as_bytes()), (0..len + 1).map(|i| format!(" (id {})", hex((names[i % 8].to_string() + &(i / 8).to_string()).as_bytes()))).collect::<String>());
             EXPECT.with(|e| e.borrow_mut().insert(c.key(), flat));
             out.push(c);
+        }
+    }
+    // explicit nesting 32, 40 and 48 levels deep on one path (parenthesised groups, calls, indexes,
+    // conditionals, prefix operators): the tree comes back exactly as written
+    for depth in [32usize, 40, 48] {
+        let id = |i: usize| T::Id(["a", "b", "c", "d", "e", "f", "g", "h"][i % 8]);
+        for op in ["+", "-", "*", "==", "&&", "||"] {
+            let mut left = id(0);
+            let mut right = id(0);
+            for i in 1..=depth {
+                left = T::Bin(op, Box::new(left), Box::new(id(i)));
+                right = T::Bin(op, Box::new(id(i)), Box::new(right));
+            }
+            push_tree(&mut out, &left, "deep");
+            push_tree(&mut out, &right, "deep");
+        }
+        let mut calls = id(0);
+        let mut mcalls = id(0);
+        let mut idx = id(0);
+        let mut cond = id(0);
+        let mut negs = id(0);
+        let mut mixed = id(0);
+        for i in 1..=depth {
+            calls = T::Call("f", vec![calls]);
+            mcalls = T::MCall(Box::new(mcalls), "g", vec![id(i)]);
+            idx = T::Idx(Box::new(id(i)), Box::new(idx));
+            cond = T::Cond(Box::new(cond), Box::new(id(i)), Box::new(T::Int(i as i64)));
+            negs = if i % 2 == 0 { T::Neg(Box::new(T::Bin("+", Box::new(negs), Box::new(T::Int(1))))) } else { T::Not(Box::new(T::Bin("&&", Box::new(negs), Box::new(id(i))))) };
+            mixed = match i % 4 { 0 => T::Bin("-", Box::new(id(i)), Box::new(mixed)), 1 => T::Call("f", vec![id(i), mixed]), 2 => T::Idx(Box::new(mixed), Box::new(T::Int(0))), _ => T::Bin("*", Box::new(mixed), Box::new(id(i))) };
+        }
+        for t in [&calls, &mcalls, &idx, &cond, &negs, &mixed] {
+            push_tree(&mut out, t, "deep");
         }
     }
     // unparenthesised chains of the left-associative operators, every length 2..10, one operator
